@@ -1384,7 +1384,7 @@ func (e *Exec) deliverOnR0(p *pendingTx, blk *Block, rec *BlockRec) {
 	if pred.CustomOnly && preBank != nil && !e.stop {
 		ctx = r0.DeliverCtx()
 		postBank := e.bankSnapshot(ctx, r0.Node)
-		e.checkCoins(p.ID, desc, bt, pred, preBank, postBank, preSeq, ctx, r0.Node)
+		e.checkCoins(p.ID, desc, bt, pred, preBank, postBank, preSeq, ctx, r0.Node, accepted)
 	}
 	// authz bookkeeping (SDK messages; effect follows the implementation's verdict)
 	if accepted {
@@ -1803,7 +1803,7 @@ func msgJSON(env *Env, m sdk.Msg) string {
 }
 
 // checkCoins: C15 around one custom-only transaction.
-func (e *Exec) checkCoins(id int, desc string, bt *BuiltTx, pred *prediction, pre, post *bankSnap, preSeq uint64, ctx sdk.Context, n *Node) {
+func (e *Exec) checkCoins(id int, desc string, bt *BuiltTx, pred *prediction, pre, post *bankSnap, preSeq uint64, ctx sdk.Context, n *Node, accepted bool) {
 	ent := fmt.Sprintf("tx%d", id)
 	if d := diffSnap(pre.Supply, post.Supply); len(d) > 0 {
 		e.viol("C15", "coins.supply_changed", ent, "custom-only tx %s changed the total supply: %v", desc, d)
@@ -1817,7 +1817,13 @@ func (e *Exec) checkCoins(id int, desc string, bt *BuiltTx, pred *prediction, pr
 			antePassed = true
 		}
 	}
-	if antePassed {
+	if accepted && !antePassed && pred.Payer != nil {
+		// the messages of an accepted transaction were executed, so its ante chain ran to completion - and yet the payer's
+		// sequence stands still: the fee deduction and the sequence increment were made somewhere they do not count
+		e.viol("C15", "coins.ante_effects_lost", ent, "custom-only tx %s was accepted, but the sequence of its fee payer %s did not advance (declared fee %s)", desc, pred.Payer, bt.Fee)
+		return
+	}
+	if antePassed || accepted {
 		fc := n.App.AccountKeeper.GetModuleAddress("fee_collector").String()
 		for _, c := range bt.Fee {
 			for _, who := range []string{pred.Payer.String(), fc} {
